@@ -471,6 +471,14 @@ def parallelize(  # noqa: C901
                     sarr[pid]['n_finished_tasks'] = worker_task_idx + 1
             proc.join(timeout=0.01)
 
+    # A child process that did not terminate with exit code 0 died after it
+    # had delivered its result and its log records.
+    for proc in processes:
+        if proc.exitcode != 0:
+            raise RuntimeError(
+                f'Child process {proc.pid} did not return with 0! '
+                f'Exit code was {proc.exitcode}.')
+
     # Order the result lists.
     result_list = []
     for pid in range(len(pid_result_list_map)):
